@@ -337,14 +337,15 @@ theorem hashmap_lookups {h : K → Nat} {m : HashMap.HM K V} (inv : Inv h m) (ke
   refine ⟨AslProofs.HashMap.find_eq_abs inv.wf key, AslProofs.HashMap.has_eq_abs inv.wf key, ?_⟩
   unfold HashMap.get; rw [AslProofs.HashMap.find_eq_abs inv.wf key]
 
-/-- **no growth while shared** (c201e90): when more than one handle refers to the table, `rehash()` leaves it
-exactly as it is — so `operator[]` never rebinds the bucket array of one handle behind the back of the others,
-which is what lets the driver (and the theorems) treat all handles of a table as one object -/
+/-- *definitional* (an unfolding of the `∨ m.rc > 1` disjunct of `HashMap.rehash`, kept as a named fact): with
+more than one handle on the table `rehash()` returns it unchanged (c201e90).  It says nothing about handles by
+itself; the handle-level statement is `handles_refine` below, and that the CODE's handles behave like the model's
+is established by K (`share` ops) only. -/
 theorem rehash_shared_noop (h : K → Nat) (m : HashMap.HM K V) (hrc : 1 < m.rc) : HashMap.rehash h m = m := by
   unfold HashMap.rehash
   simp [hrc]
 
-/-- while shared, an insertion changes nothing but the chain of the key's bucket: the table keeps its size -/
+/-- *definitional* corollary of the above: while shared, `operator[]` keeps the table size and the count of handles -/
 theorem index_shared_keeps_size (h : K → Nat) (dflt : V) (m : HashMap.HM K V) (key : K) (hrc : 1 < m.rc) :
     (HashMap.index h dflt m key).buckets.length = m.buckets.length ∧ (HashMap.index h dflt m key).rc = m.rc := by
   unfold HashMap.index
@@ -463,6 +464,134 @@ and growth only permute the enumeration) -/
 theorem hashmap_enum_perm {h : K → Nat} {a b : HashMap.HM K V} (ia : Inv h a) (ib : Inv h b)
     (e : ∀ k, abs a k = abs b k) : (HashMap.enum a).Perm (HashMap.enum b) :=
   AslProofs.HashMap.enum_perm_of_abs_eq ia ib e
+
+/-! ### several handles to one table (copy-constructed / assigned `HashMap` objects)
+
+The reference semantics: a store of finite maps and slots naming them; a member called through one object is seen
+through every object naming the same map and through no other. -/
+
+structure AFam (K V : Type) where
+  atabs : List (FinMap K V)
+  slots : List Nat
+
+def AFam.get (a : AFam K V) (j : Nat) : FinMap K V := a.atabs.getD (a.slots.getD j 0) FinMap.empty
+def AFam.mutate (a : AFam K V) (j : Nat) (g : FinMap K V → FinMap K V) : AFam K V :=
+  { a with atabs := a.atabs.set (a.slots.getD j 0) (g (a.get j)) }
+def AFam.share (a : AFam K V) (i j : Nat) : AFam K V := { a with slots := a.slots.set j (a.slots.getD i 0) }
+def AFam.rebind (a : AFam K V) (j : Nat) (x : FinMap K V) : AFam K V :=
+  { atabs := a.atabs ++ [x], slots := a.slots.set j a.atabs.length }
+
+/-- object-level operations: a member `o` called on object `j`; `object j = object i`; object `j` assigned a
+new map of size hint `n`; object `j` assigned `object i .clone()` -/
+inductive FOp (K V : Type) where
+  | call (j : Nat) (o : HOp K V)
+  | share (i j : Nat)
+  | fresh (j : Nat) (n : Int)
+  | clone (i j : Nat)
+
+def FOp.run (h : K → Nat) (dflt : V) : FOp K V → HashMap.Fam K V → HashMap.Fam K V
+  | .call j o, f => f.mutate j (o.run h dflt)
+  | .share i j, f => f.share i j
+  | .fresh j n, f => f.rebind j (HashMap.ofSize n)
+  | .clone i j, f => f.rebind j (HashMap.dup h dflt (f.get i))
+
+def FOp.spec (dflt : V) : FOp K V → AFam K V → AFam K V
+  | .call j o, a => a.mutate j (o.spec dflt)
+  | .share i j, a => a.share i j
+  | .fresh j _, a => a.rebind j FinMap.empty
+  | .clone i j, a => a.rebind j (a.get i)
+
+/-- every table of the store is well-formed -/
+def FamInv (h : K → Nat) (f : HashMap.Fam K V) : Prop := ∀ m ∈ f.tabs, Inv h m
+
+/-- the abstraction of a family: the same slots over the abstract maps of the tables -/
+def famAbs (f : HashMap.Fam K V) : AFam K V := ⟨f.tabs.map abs, f.slots⟩
+
+theorem abs_empty_default : abs (HashMap.empty Gen.HashMap.defaultBuckets : HashMap.HM K V) = FinMap.empty :=
+  funext (AslProofs.HashMap.empty_inv (fun _ => 0) AslProofs.HashMap.defaultBuckets_pos).2
+
+theorem fam_get_abs (f : HashMap.Fam K V) (j : Nat) : abs (f.get j) = (famAbs f).get j := by
+  unfold HashMap.Fam.get AFam.get famAbs
+  simp only [List.getD_eq_getElem?_getD, List.getElem?_map]
+  cases hq : f.tabs[f.slots[j]?.getD 0]? with
+  | none => simp only [Option.map_none, Option.getD_none]; exact abs_empty_default
+  | some m => simp only [Option.map_some, Option.getD_some]; rfl
+
+theorem fam_get_inv {h : K → Nat} {f : HashMap.Fam K V} (fi : FamInv h f) (j : Nat) : Inv h (f.get j) := by
+  unfold HashMap.Fam.get
+  simp only [List.getD_eq_getElem?_getD]
+  cases hq : f.tabs[f.slots[j]?.getD 0]? with
+  | none =>
+    have E := (AslProofs.HashMap.empty_inv (V := V) h AslProofs.HashMap.defaultBuckets_pos).1
+    exact ⟨E.wf, E.count⟩
+  | some m =>
+    have := fi m (List.mem_of_getElem? hq)
+    exact ⟨this.wf, this.count⟩
+
+theorem fam_op_refines {h : K → Nat} (dflt : V) (o : FOp K V) {f : HashMap.Fam K V} (fi : FamInv h f) :
+    FamInv h (o.run h dflt f) ∧ famAbs (o.run h dflt f) = o.spec dflt (famAbs f) := by
+  cases o with
+  | call j o =>
+    obtain ⟨i1, a1⟩ := hashmap_op_refines dflt o (fam_get_inv fi j)
+    refine ⟨?_, ?_⟩
+    · intro m hm
+      rcases List.mem_or_eq_of_mem_set hm with hm | hm
+      · exact fi m hm
+      · rw [hm]; exact i1
+    · simp only [FOp.run, FOp.spec, HashMap.Fam.mutate, HashMap.Fam.store, AFam.mutate, famAbs, List.map_set]
+      have : abs (o.run h dflt (f.get j)) = o.spec dflt ((famAbs f).get j) := by
+        rw [← fam_get_abs]; exact funext a1
+      rw [this]; rfl
+  | share i j => exact ⟨fi, rfl⟩
+  | fresh j n =>
+    obtain ⟨i1, a1, _⟩ := hashmap_ofSize (V := V) h n
+    refine ⟨?_, ?_⟩
+    · intro m hm
+      rcases List.mem_append.mp hm with hm | hm
+      · exact fi m hm
+      · have : m = { (HashMap.ofSize n : HashMap.HM K V) with rc := 1 } := by simpa using hm
+        rw [this]; exact ⟨i1.wf, i1.count⟩
+    · simp only [FOp.run, FOp.spec, HashMap.Fam.rebind, AFam.rebind, famAbs, List.map_append, List.map_cons, List.map_nil,
+        List.length_map]
+      have : abs ({ (HashMap.ofSize n : HashMap.HM K V) with rc := 1 }) = FinMap.empty := funext a1
+      rw [this]
+  | clone i j =>
+    obtain ⟨i1, a1⟩ := AslProofs.HashMap.dup_spec (fam_get_inv fi i) dflt
+    refine ⟨?_, ?_⟩
+    · intro m hm
+      rcases List.mem_append.mp hm with hm | hm
+      · exact fi m hm
+      · have : m = { HashMap.dup h dflt (f.get i) with rc := 1 } := by simpa using hm
+        rw [this]; exact ⟨i1.wf, i1.count⟩
+    · simp only [FOp.run, FOp.spec, HashMap.Fam.rebind, AFam.rebind, famAbs, List.map_append, List.map_cons, List.map_nil,
+        List.length_map]
+      have : abs ({ HashMap.dup h dflt (f.get i) with rc := 1 }) = (famAbs f).get i := by
+        rw [← fam_get_abs]; exact funext a1
+      rw [this]; rfl
+
+/-- **handles refine aliased finite maps, for every history.**  For any sequence of member calls through any
+object, handle copies (`object j = object i`), re-initialisations and clones, every table stays well-formed and
+the family of objects is, abstractly, the same sequence run on a store of finite maps with the same aliasing:
+what is done through one object is seen through exactly the objects that name the same map — in particular
+handles never split (the defect repaired by c201e90 would break `.call` when growth fires while shared). -/
+theorem handles_refine (h : K → Nat) (dflt : V) (ops : List (FOp K V)) :
+    ∀ {f : HashMap.Fam K V}, FamInv h f →
+    FamInv h (ops.foldl (fun f o => o.run h dflt f) f) ∧
+    famAbs (ops.foldl (fun f o => o.run h dflt f) f) = ops.foldl (fun a o => o.spec dflt a) (famAbs f) := by
+  induction ops with
+  | nil => intro f fi; exact ⟨fi, rfl⟩
+  | cons o t ih =>
+    intro f fi
+    obtain ⟨i1, a1⟩ := fam_op_refines dflt o fi
+    obtain ⟨i2, a2⟩ := ih i1
+    exact ⟨i2, by simp only [List.foldl_cons]; rw [a2, a1]⟩
+
+/-- what any object sees after any history is what the reference store shows through the same slot -/
+theorem handles_observe (h : K → Nat) (dflt : V) (ops : List (FOp K V)) {f : HashMap.Fam K V} (fi : FamInv h f) (j : Nat) (key : K) :
+    HashMap.find h ((ops.foldl (fun f o => o.run h dflt f) f).get j) key =
+      (ops.foldl (fun a o => o.spec dflt a) (famAbs f)).get j key := by
+  obtain ⟨i, a⟩ := handles_refine h dflt ops fi
+  rw [AslProofs.HashMap.find_eq_abs (fam_get_inv i j).wf, fam_get_abs, a]
 
 end Hashed
 
